@@ -2,23 +2,25 @@ package props
 
 import (
 	"bytes"
+	"encoding/json"
 	"fmt"
 	"math/rand"
-	"net/http/httptest"
 	"net/url"
+	"os"
+	"os/exec"
+	"path/filepath"
 	"sort"
 	"strings"
 	"time"
 	"unicode/utf8"
 
 	samlxml "github.com/zitadel/saml/pkg/provider/xml"
-	"github.com/zitadel/saml/pkg/provider/xml/md"
-	"github.com/zitadel/saml/pkg/provider/xml/saml"
-	"github.com/zitadel/saml/pkg/provider/xml/samlp"
-	"github.com/zitadel/saml/pkg/provider/xml/soap"
+
+	"github.com/zitadel/saml/pkg/provider/key"
 
 	"verif/harness/core"
 	"verif/harness/env"
+	"verif/harness/keys"
 	"verif/harness/spsim"
 	"verif/harness/verify"
 )
@@ -160,243 +162,28 @@ func pySkeleton(nodes []verify.PyNode) string {
 	return b.String()
 }
 
-// c18Values is the list of (path, value) the harness put into a message.
-type c18Field struct {
-	Path string // "local[/local]@attr" or "local[/local]#text" addressing the k-th occurrence
-	Val  string
-}
-
-// lookup finds the value at a simple path in an expat dump: elements by local name chain (first match, depth first).
-func pyLookup(nodes []verify.PyNode, path string) (string, bool) {
-	attr := ""
-	text := false
-	if i := strings.IndexByte(path, '@'); i >= 0 {
-		path, attr = path[:i], path[i+1:]
-	} else if strings.HasSuffix(path, "#text") {
-		path, text = strings.TrimSuffix(path, "#text"), true
-	}
-	want := strings.Split(path, "/")
-	var stack []string
-	for _, n := range nodes {
-		if n.Depth < len(stack) {
-			stack = stack[:n.Depth]
-		}
-		stack = append(stack, n.Local)
-		if len(stack) >= len(want) && equalStrings(stack[len(stack)-len(want):], want) {
-			if text {
-				return n.Text, true
-			}
-			v, ok := n.Attrs[attr]
-			return v, ok
-		}
-	}
-	return "", false
-}
-
-type c18Msg struct {
-	Kind   string
-	Build  func(s func(string) string) any // s maps a field label to its string
-	Fields []string                        // labels
-	Paths  map[string]string               // label -> expat path
-	Decode func(x []byte) (map[string]string, error)
-}
-
-func c18Messages() []c18Msg {
-	respFields := []string{"id", "irt", "dest", "issuer", "status", "msg", "aid", "nameid", "audience", "attrname", "attrfriendly", "attrval1", "attrval2", "recipient"}
-	buildResp := func(s func(string) string) *samlp.ResponseType {
-		return &samlp.ResponseType{
-			Id: s("id"), InResponseTo: s("irt"), Version: "2.0", IssueInstant: "2026-01-01T00:00:00Z", Destination: s("dest"),
-			Issuer: &saml.NameIDType{Text: s("issuer")},
-			Status: samlp.StatusType{StatusCode: samlp.StatusCodeType{Value: s("status")}, StatusMessage: s("msg")},
-			Assertion: saml.AssertionType{Version: "2.0", Id: s("aid"), IssueInstant: "2026-01-01T00:00:00Z", Issuer: saml.NameIDType{Text: s("issuer")},
-				Subject: &saml.SubjectType{NameID: &saml.NameIDType{Text: s("nameid")}, SubjectConfirmation: []saml.SubjectConfirmationType{{Method: "urn:oasis:names:tc:SAML:2.0:cm:bearer",
-					SubjectConfirmationData: &saml.SubjectConfirmationDataType{InResponseTo: s("irt"), Recipient: s("recipient")}}}},
-				Conditions:         &saml.ConditionsType{AudienceRestriction: []saml.AudienceRestrictionType{{Audience: []string{s("audience")}}}},
-				AttributeStatement: []saml.AttributeStatementType{{Attribute: []*saml.AttributeType{{Name: s("attrname"), FriendlyName: s("attrfriendly"), NameFormat: basicFormat, AttributeValue: []string{s("attrval1"), s("attrval2")}}}}},
-			},
-		}
-	}
-	respPaths := map[string]string{"id": "Response@ID", "irt": "Response@InResponseTo", "dest": "Response@Destination", "issuer": "Response/Issuer#text", "status": "Status/StatusCode@Value",
-		"msg": "Status/StatusMessage#text", "aid": "Assertion@ID", "nameid": "Subject/NameID#text", "audience": "AudienceRestriction/Audience#text", "attrname": "Attribute@Name",
-		"attrfriendly": "Attribute@FriendlyName", "attrval1": "Attribute/AttributeValue#text", "recipient": "SubjectConfirmationData@Recipient"}
-	decodeResp := func(x []byte) (map[string]string, error) {
-		m, err := samlxml.DecodeResponse("", false, string(x))
-		if err != nil {
-			return nil, err
-		}
-		out := map[string]string{"id": m.Id, "irt": m.InResponseTo, "dest": m.Destination, "status": m.Status.StatusCode.Value, "msg": m.Status.StatusMessage, "aid": m.Assertion.Id}
-		if m.Issuer != nil {
-			out["issuer"] = m.Issuer.Text
-		}
-		if m.Assertion.Subject != nil && m.Assertion.Subject.NameID != nil {
-			out["nameid"] = m.Assertion.Subject.NameID.Text
-			if len(m.Assertion.Subject.SubjectConfirmation) > 0 && m.Assertion.Subject.SubjectConfirmation[0].SubjectConfirmationData != nil {
-				out["recipient"] = m.Assertion.Subject.SubjectConfirmation[0].SubjectConfirmationData.Recipient
-			}
-		}
-		if c := m.Assertion.Conditions; c != nil && len(c.AudienceRestriction) > 0 && len(c.AudienceRestriction[0].Audience) > 0 {
-			out["audience"] = c.AudienceRestriction[0].Audience[0]
-		}
-		if as := m.Assertion.AttributeStatement; len(as) > 0 && len(as[0].Attribute) > 0 {
-			a := as[0].Attribute[0]
-			out["attrname"], out["attrfriendly"] = a.Name, a.FriendlyName
-			if len(a.AttributeValue) == 2 {
-				out["attrval1"], out["attrval2"] = a.AttributeValue[0], a.AttributeValue[1]
-			}
-		}
-		return out, nil
-	}
-	return []c18Msg{
-		{Kind: "Response", Fields: respFields, Paths: respPaths, Build: func(s func(string) string) any { return buildResp(s) }, Decode: decodeResp},
-		{Kind: "SOAP", Fields: respFields, Paths: respPaths, Build: func(s func(string) string) any {
-			return &soap.ResponseEnvelope{Body: soap.ResponseBody{Response: buildResp(s)}}
-		}},
-		{Kind: "LogoutResponse", Fields: []string{"id", "irt", "dest", "issuer", "status", "msg"},
-			Paths: map[string]string{"id": "LogoutResponse@ID", "irt": "LogoutResponse@InResponseTo", "dest": "LogoutResponse@Destination", "issuer": "LogoutResponse/Issuer#text", "status": "Status/StatusCode@Value", "msg": "Status/StatusMessage#text"},
-			Build: func(s func(string) string) any {
-				return &samlp.LogoutResponseType{Id: s("id"), InResponseTo: s("irt"), Version: "2.0", IssueInstant: "2026-01-01T00:00:00Z", Destination: s("dest"), Issuer: &saml.NameIDType{Text: s("issuer")},
-					Status: samlp.StatusType{StatusCode: samlp.StatusCodeType{Value: s("status")}, StatusMessage: s("msg")}}
-			}},
-		{Kind: "EntityDescriptor", Fields: []string{"entity", "id", "org", "display", "orgurl", "company", "given", "sur", "mail", "phone", "loc"},
-			Paths: map[string]string{"entity": "EntityDescriptor@entityID", "id": "EntityDescriptor@ID", "org": "Organization/OrganizationName#text", "display": "Organization/OrganizationDisplayName#text",
-				"orgurl": "Organization/OrganizationURL#text", "company": "ContactPerson/Company#text", "given": "ContactPerson/GivenName#text", "sur": "ContactPerson/SurName#text",
-				"mail": "ContactPerson/EmailAddress#text", "phone": "ContactPerson/TelephoneNumber#text", "loc": "SingleSignOnService@Location"},
-			Build: func(s func(string) string) any {
-				org := &md.OrganizationType{OrganizationName: []md.LocalizedNameType{{Text: s("org")}}, OrganizationDisplayName: []md.LocalizedNameType{{Text: s("display")}}, OrganizationURL: []md.LocalizedURIType{{Text: s("orgurl")}}}
-				cp := []md.ContactType{{ContactType: "technical", Company: s("company"), GivenName: s("given"), SurName: s("sur"), EmailAddress: []string{s("mail")}, TelephoneNumber: []string{s("phone")}}}
-				return &md.EntityDescriptorType{EntityID: md.EntityIDType(s("entity")), Id: s("id"),
-					IDPSSODescriptor: &md.IDPSSODescriptorType{ProtocolSupportEnumeration: spsim.NSP, Organization: org, ContactPerson: cp,
-						SingleSignOnService: []md.EndpointType{{Binding: spsim.BindPost, Location: s("loc")}}}}
-			},
-			Decode: func(x []byte) (map[string]string, error) {
-				m, err := samlxml.ParseMetadataXmlIntoStruct(x)
-				if err != nil {
-					return nil, err
-				}
-				out := map[string]string{"entity": string(m.EntityID), "id": m.Id}
-				if d := m.IDPSSODescriptor; d != nil {
-					if o := d.Organization; o != nil && len(o.OrganizationName) > 0 && len(o.OrganizationDisplayName) > 0 && len(o.OrganizationURL) > 0 {
-						out["org"], out["display"], out["orgurl"] = o.OrganizationName[0].Text, o.OrganizationDisplayName[0].Text, o.OrganizationURL[0].Text
-					}
-					if len(d.ContactPerson) > 0 {
-						c := d.ContactPerson[0]
-						out["company"], out["given"], out["sur"] = c.Company, c.GivenName, c.SurName
-						if len(c.EmailAddress) > 0 && len(c.TelephoneNumber) > 0 {
-							out["mail"], out["phone"] = c.EmailAddress[0], c.TelephoneNumber[0]
-						}
-					}
-					if len(d.SingleSignOnService) > 0 {
-						out["loc"] = d.SingleSignOnService[0].Location
-					}
-				}
-				return out, nil
-			}},
-	}
-}
-
-func c18Marshal(kind string, v any, viaWriter bool) ([]byte, error) {
-	if viaWriter || kind == "SOAP" {
-		rec := httptest.NewRecorder()
-		if err := samlxml.WriteXMLMarshalled(rec, v); err != nil {
-			return nil, err
-		}
-		return rec.Body.Bytes(), nil
-	}
-	return samlxml.Marshal(v)
-}
-
-func c18Built(r *core.Run, idx int, rng *rand.Rand) {
-	const wl = "built_messages"
-	msgs := c18Messages()
-	m := msgs[idx%len(msgs)]
-	viaWriter := rng.Intn(2) == 0
-	neutral := func(l string) string { return "neutral" + l }
-	nb, err := c18Marshal(m.Kind, m.Build(neutral), viaWriter)
-	if err != nil {
-		r.Inconclusive("neutral message does not marshal: " + err.Error())
-		return
-	}
-	okN, _, nNodes, oerr := verify.PyWF(nb, true)
-	if oerr != nil || !okN {
-		r.Inconclusive(fmt.Sprintf("neutral message not parseable by expat (%v)", oerr))
-		return
-	}
-	skel := pySkeleton(nNodes)
-	for k := 0; k < 8; k++ {
-		legal := rng.Intn(2) == 0
-		vals := map[string]string{}
-		for _, f := range m.Fields {
-			vals[f] = anyString(rng, legal)
-		}
-		class := fmt.Sprintf("%s|legal=%v|writer=%v", m.Kind, legal, viaWriter)
-		desc := map[string]any{"kind": m.Kind, "values": vals}
-		viol := func(clause, reason string) {
-			r.Violate(core.Violation{Clause: clause, Class: class, Reason: reason, Workload: wl, Index: idx, Case: desc})
-		}
-		x, err := c18Marshal(m.Kind, m.Build(func(l string) string { return vals[l] }), viaWriter)
-		r.Eval(class + core.Hex(fmt.Sprint(vals)))
-		r.Count("messages_built", 1)
-		if err != nil {
-			// refusing to serialise is not restructuring; only legal values must serialise
-			if legal {
-				viol("marshal_error", err.Error())
-			}
-			continue
-		}
-		ok, perr, nodes, oerr := verify.PyWF(x, true)
-		if oerr != nil {
-			r.Inconclusive("python oracle unavailable: " + oerr.Error())
+// The built-message monitor (B) lives in package c18b and runs as a helper process (.build/c18built):
+// it touches many struct types of the library's XML model, and a change of one of those types must not
+// stop the rest of this check (or any other check) from compiling.
+func c18BuiltHelper(n int) func(r *core.Run, idx int, rng *rand.Rand) {
+	return func(r *core.Run, idx int, _ *rand.Rand) {
+		bin := filepath.Join(core.Root, ".build", "c18built")
+		if _, err := os.Stat(bin); err != nil {
+			r.Inconclusive("the built-message workload (harness/c18b) does not compile against the repository; the codec and harvested-reply monitors ran")
 			return
 		}
-		if !ok {
-			viol("not_wellformed", "expat: "+perr+" in "+clipS(string(x), 600))
-			continue
+		cmd := exec.Command(bin, "--seed", fmt.Sprint(r.Seed), "--n", fmt.Sprint(n))
+		cmd.Env = append(os.Environ(), "VERIF_ROOT="+core.Root)
+		out, err := cmd.Output()
+		var d core.Dump
+		if err != nil || json.Unmarshal(out, &d) != nil {
+			r.Inconclusive(fmt.Sprintf("built-message helper failed: %v %s", err, clipS(string(out), 300)))
+			return
 		}
-		if strings.Count(string(x), "<?xml") != 1 {
-			viol("not_single_document", "number of XML declarations != 1")
+		for i := range d.Violations {
+			d.Violations[i].Workload, d.Violations[i].Index = "built_messages", 0
 		}
-		if got := pySkeleton(nodes); got != skel {
-			viol("structure_changed_by_data", "element / attribute structure differs from the neutral rendering: "+clipS(diffAt(skel, got), 500))
-			continue
-		}
-		r.Count("structure_preserved", 1)
-		for f, p := range m.Paths {
-			got, found := pyLookup(nodes, p)
-			want := vals[f]
-			if !found {
-				viol("value_lost", fmt.Sprintf("field %s (%s) not found by expat", f, p))
-				continue
-			}
-			if legal {
-				if got != want {
-					viol("value_changed", fmt.Sprintf("field %s: expat reads %q, put in %q", f, clipS(got, 200), clipS(want, 200)))
-				}
-			} else if replaceIllegal(got) != replaceIllegal(want) {
-				viol("value_changed_beyond_replacement", fmt.Sprintf("field %s: expat reads %q, put in %q", f, clipS(got, 200), clipS(want, 200)))
-			}
-		}
-		if m.Decode != nil {
-			dec, err := m.Decode(x)
-			if err != nil {
-				viol("library_decode_error", err.Error())
-				continue
-			}
-			for f, got := range dec {
-				want := vals[f]
-				if legal && got != want {
-					viol("library_value_changed", fmt.Sprintf("field %s: library decoder reads %q, put in %q", f, clipS(got, 200), clipS(want, 200)))
-				} else if !legal && replaceIllegal(got) != replaceIllegal(want) {
-					viol("library_value_changed_beyond_replacement", fmt.Sprintf("field %s: library decoder reads %q, put in %q", f, clipS(got, 200), clipS(want, 200)))
-				}
-			}
-			r.Count("library_round_trips", 1)
-		}
-		if legal {
-			r.Count("legal_value_round_trips", 1)
-		}
-		if idx < 4 && k == 0 {
-			r.Sample("built_message", map[string]any{"kind": m.Kind, "legal": legal, "bytes": clipS(string(x), 700)})
-		}
+		r.Merge(&d)
 	}
 }
 
@@ -409,8 +196,15 @@ func c18Harvest(r *core.Run, idx int, rng *rand.Rand) {
 	mustRegister(e.W, d, "a")
 	id := "id" + legalXMLString(rng, 6)
 	var call *env.Call
-	kind := idx % 4
+	kind := idx % 5
 	switch kind {
+	case 4: // the callback cannot sign (certificate and key do not belong together): what is sent must be the failure message
+		sc := randScenario(rng, fmt.Sprintf("MK%dx", idx), false)
+		sc.Host = ""
+		sc.S.AuthRequestID = id
+		sc.install(e.W)
+		e.W.RespKey = &key.CertificateAndKey{Certificate: keys.Get("idp_meta").CertDER, Key: keys.Get("idp_resp").RSA}
+		call = e.Do(env.Req{Path: env.PathLogin, Query: "id=" + url.QueryEscape(sc.S.ID)})
 	case 3: // callback error reply: the status message echoes what storage says about an attacker-chosen id (any bytes)
 		id = "id" + anyString(rng, false)
 		sc := randScenario(rng, fmt.Sprintf("MK%dx", idx), false)
@@ -439,7 +233,7 @@ func c18Harvest(r *core.Run, idx int, rng *rand.Rand) {
 		q.Attrs = nil
 		call = e.Do(env.Req{Method: "POST", Path: env.PathAttr, Body: q.XML(rng), CT: "text/xml"})
 	}
-	class := []string{"sso_error", "logout", "attribute_query", "callback_unknown_id"}[kind]
+	class := []string{"sso_error", "logout", "attribute_query", "callback_unknown_id", "callback_signing_failure"}[kind]
 	r.Eval(class + core.Hex(id))
 	viol := func(clause, reason string) {
 		r.Violate(core.Violation{Clause: clause, Class: class, Reason: reason, Workload: wl, Index: idx, Case: map[string]any{"id": id}, Observed: call.Describe()})
@@ -478,6 +272,13 @@ func c18Harvest(r *core.Run, idx int, rng *rand.Rand) {
 		r.Count("harvested_status_message_echoes", 1)
 		return
 	}
+	if kind == 4 {
+		// the message handed to the sender was a failure response: that, and nothing else, is what must arrive
+		if call.D.Success() || pm.HasNameID || pm.AttrValueCount > 0 {
+			viol("emitted_message_is_not_the_one_built", fmt.Sprintf("signing failed, yet the reply decodes to status %q with subject %q and %d attribute values", pm.StatusCode, pm.NameID, pm.AttrValueCount))
+		}
+		r.Count("harvested_signing_failure_replies", 1)
+	}
 	if pm.InResponseTo != id || call.D.Msg.InResponseTo != id {
 		viol("echo_changed", fmt.Sprintf("InResponseTo expat %q / etree %q, request ID %q", pm.InResponseTo, call.D.Msg.InResponseTo, id))
 	}
@@ -502,7 +303,7 @@ func init() {
 			r.Require("harvested_status_message_echoes", 100)
 			return []core.Workload{
 				{Name: "codec", N: c.Pick(130, 1300), Fn: c18Codec},
-				{Name: "built_messages", N: c.Pick(260, 2600), Fn: c18Built},
+				{Name: "built_messages", N: 1, Workers: 1, Fn: c18BuiltHelper(c.Pick(260, 2600))},
 				{Name: "harvested_replies", N: c.Pick(600, 6000), Fn: c18Harvest},
 			}
 		},
